@@ -814,7 +814,7 @@ def errcCase : P String := do
 /-- two solvers for the same species in different internal orders; a State of the second is copy-assigned a State
     of the first (and the other way round); all reads are by name -/
 def cpAssignCase : P String := do
-  let _L ← nat; let ns ← nat; let ncell ← nat; let _reorder2 ← nat
+  let _L ← nat; let ns ← nat; let ncell ← nat; let _reorder2 ← nat; let _ncell2 ← nat
   let perm1 ← nats ns; let perm2 ← nats ns
   let vals1 ← flts (ns * ncell); let vals2 ← flts (ns * ncell)
   let j ← nat; let newv ← flts ncell
